@@ -931,3 +931,10 @@ r5("C16", "r13-getmax-skips-request", "C16-e2", "C16-R13|container.(*Container).
 r5("C17", "r5-copy-error-overwritten", "C17-e1", "C17-R5|utils.CreateAtomic / error of io.Copy is examined on every path")
 r5("C17", "r9-unpack-without-lock", "C17-e2", "C17-R9|updater.(*Resource).UnpackArchive")
 r5("C19", "r11-index-only-on-create", "C19-e2", "C19-R11|updater.(*ResourceRegistry).addResource")
+
+# A14: getter and log wrapper families
+clone("C20-r6-info-without-fastcheck", "C20", "r7-info-wrapper-differs", "C20-R7|log.Trace ~ log.Info", "one-sided edit of a wrapper")
+clone("C20-r6-tracer-warning-labelled-info", "C20", "r7-tracer-warning-level", "C20-R7|log.(*ContextTracer).Trace ~ log.(*ContextTracer).Warning", "one-sided edit of a wrapper")
+mut("C04", "r13-int-getter-keeps-stale-value", "config/get.go",
+    "\t\t\tif valueCache != nil {\n\t\t\t\tvalue = valueCache.intVal\n\t\t\t} else {\n\t\t\t\tvalue = fallback\n\t\t\t}", "\t\t\tif valueCache != nil {\n\t\t\t\tvalue = valueCache.intVal\n\t\t\t}",
+    "C04-R13|config.GetAsString ~ config.GetAsInt")
